@@ -95,15 +95,7 @@ CHECKS = {
             "rings is a theorem about Model/Simplify.v. Polynomial upper bounds for the other operations are measured, not proved."),
 }
 
-NOT_YET = {
-    "C07": "ms semantics model (MsSem/GraphSem) and to_ms model not built yet in this session",
-    "C08": "from_ms interpreter model not built yet in this session",
-    "C09": "depends on the C07/C08 models, not built yet in this session",
-    "C17": "file-handle model and fault-enumeration harness not built yet in this session",
-    "C18": "heap (sharing/mutation) model and tracking-container harness not built yet in this session",
-    "C19": "CLI model and harness not built yet in this session",
-    "C20": "cost model not built yet in this session",
-}
+NOT_YET = {}
 
 
 def main():
